@@ -131,6 +131,14 @@ def check_large_scalars(rep, tier):
     seqof = univ.SequenceOf(componentType=rng_int)
     rec = univ.Sequence(componentType=namedtype.NamedTypes(namedtype.NamedType('n', rng_int),
                                                            namedtype.OptionalNamedType('r', univ.Real())))
+    # constraints that are handed something other than an int whose repr() contains the huge number: the component mapping
+    # of a SIZE-constrained container (isInconsistent), the arc tuple of a restricted OID
+    sized_seqof = univ.SequenceOf(componentType=univ.Integer()).subtype(subtypeSpec=constraint.ValueSizeConstraint(1, 2))
+    sized_setof = univ.SetOf(componentType=univ.Integer()).subtype(subtypeSpec=constraint.ValueSizeConstraint(1, 2))
+    sized_rec = univ.Sequence(componentType=namedtype.NamedTypes(
+        namedtype.NamedType('n', univ.Integer()), namedtype.OptionalNamedType('m', univ.Boolean()))
+    ).subtype(subtypeSpec=constraint.ValueSizeConstraint(2, 2))
+    sv_oid = univ.ObjectIdentifier().subtype(subtypeSpec=constraint.SingleValueConstraint((1, 2, 3)))
     sizes = (500, 1900, 3000) if tier == 'quick' else (200, 500, 1800, 1900, 2100, 3000, 5000, 20000)
     inputs = []
     for n in sizes:
@@ -144,6 +152,12 @@ def check_large_scalars(rep, tier):
             ('enum', tlv(0x0a, big), [None, enum, univ.Enumerated()]),
             ('seqof-int', tlv(0x30, tlv(0x02, big)), [None, seqof]),
             ('rec-int', tlv(0x30, tlv(0x02, big)), [rec]),
+            ('sized-seqof-3', tlv(0x30, tlv(0x02, b'\x05') + tlv(0x02, big) + tlv(0x02, b'\x07')), [sized_seqof]),
+            ('sized-seqof-3-indef', b'\x30\x80' + tlv(0x02, big) * 3 + b'\x00\x00', [sized_seqof]),
+            ('sized-setof-3', tlv(0x31, tlv(0x02, b'\x05') + tlv(0x02, b'\x07') + tlv(0x02, big)), [sized_setof]),
+            ('sized-seqof-1', tlv(0x30, tlv(0x02, big)), [sized_seqof, sized_setof]),
+            ('sized-rec-1', tlv(0x30, tlv(0x02, big)), [sized_rec]),
+            ('sv-oid-huge-arc', tlv(0x06, b'\x2a' + arc + arc), [sv_oid]),
             ('oid-huge-arc', tlv(0x06, b'\x2a' + arc), [None, univ.ObjectIdentifier()]),
             ('oid-huge-arc-cut', tlv(0x06, b'\x2a' + arc + b'\x81'), [None, univ.ObjectIdentifier()]),
             ('oid-huge-arc-then-cut', tlv(0x06, b'\x2a' + arc + arc[:-1]), [None, univ.ObjectIdentifier()]),
